@@ -360,14 +360,25 @@ func caseC09(c *Ctx) {
 		}
 	case "listener":
 		// structural calls from inside a removal callback
-		var victim ecs.Entity
-		ok := false
-		if victim, ok = g.pickAlive(); !ok {
+		// the removal event reaches a listener through any of its type bits, not only EntityRemoved
+		subs := Pick(c.R, []event.Subscription{event.EntityRemoved, event.EntityRemoved, event.ComponentRemoved, event.Relations, event.TargetChanged,
+			event.Components, event.All, event.ComponentRemoved | event.RelationChanged, event.Entities})
+		victim, _, ok := g.aliveWhere(func(e ecs.Entity, me *MEnt) bool {
+			if subs&event.EntityRemoved != 0 {
+				return true
+			}
+			if subs&event.ComponentRemoved != 0 && len(me.Comps) > 0 {
+				return true
+			}
+			return subs&event.Relations != 0 && s.M.RelOf(me) >= 0
+		})
+		if !ok {
 			break
 		}
+		s.Cov.N[fmt.Sprintf("removal_listener_subs_%06b", int(subs))]++
 		ran := false
 		cb := listener.NewCallback(func(w *ecs.World, e ecs.EntityEvent) {
-			if ran {
+			if ran || !e.Contains(event.EntityRemoved) {
 				return
 			}
 			ran = true
@@ -380,7 +391,7 @@ func caseC09(c *Ctx) {
 				nontrivial = true
 			}
 			s.open = 0
-		}, event.EntityRemoved)
+		}, subs)
 		s.W.SetListener(&cb)
 		if c.Case%2 == 0 {
 			s.W.RemoveEntity(victim)
@@ -489,7 +500,7 @@ func caseC09Ledger(c *Ctx) {
 					inCallbackUnlocked++
 				}
 				s.Cov.N["ledger_callbacks"]++
-			}, event.Subscription(1+c.R.Intn(63))|event.EntityRemoved, s.ids(comps)...)
+			}, event.Subscription(1+c.R.Intn(63)), s.ids(comps)...) // with or without the EntityRemoved bit: removal events also arrive through ComponentRemoved / RelationChanged / TargetChanged
 			return &cb
 		}
 		if c.R.Chance(0.3) {
